@@ -974,10 +974,15 @@ func orderByBindingsChecker() ClauseHook {
 		}
 		// If dups exist rewrite the order by SortConfig.
 		if dups {
-			s.orderBy = table.SortConfig{}
-			for b, d := range seen {
-				s.orderBy = append(s.orderBy, table.SortConfig{{Binding: b, Desc: d}}...)
+			// Keep the first occurrence of every binding, in the order written.
+			orderBy, kept := table.SortConfig{}, make(map[string]bool)
+			for _, cfg := range s.orderBy {
+				if !kept[cfg.Binding] {
+					kept[cfg.Binding] = true
+					orderBy = append(orderBy, cfg)
+				}
 			}
+			s.orderBy = orderBy
 		}
 		return hook, nil
 	}
